@@ -54,7 +54,7 @@ m = {
     "setup_cmd": "cd engine && GOFLAGS=-mod=vendor GOPROXY=off GOSUMDB=off GOTOOLCHAIN=local go build -o ../bin/govc ./cmd/govc",
     "hooks": {
         "guard": "verif",
-        "enable": "the contracts are comments in /repo/contracts_verif.go (first line //go:build verif); govc loads /repo with -tags verif and parses that file; nothing else in /repo is instrumented",
+        "enable": "two add-only files, both with first line //go:build verif: /repo/contracts_verif.go (comment-only: the contracts) and /repo/lemmas_verif.go (proof harnesses: small functions that compose library entry points as a caller would, whose contracts state end-to-end lemmas); govc loads /repo with -tags verif; without the tag neither file is compiled and no library file is touched",
         "baseline_off_cmd": "cd /repo && GOFLAGS=-mod=mod GOPROXY=off GOSUMDB=off go test -vet=off -count=1 ./...",
         "source_commits": repo_hook_commits(),
         "add_only": True,
